@@ -109,6 +109,13 @@ def _post(kind):
                             if np.isfinite(r1) and np.isfinite(r0):
                                 sens = max(sens, abs(r1 - r0))
                 e = max(0.0, abs(one - v) - 2 * sens) / max(abs(v), 1e-300)
+                if kind == "icdf" and e > 1e-12:
+                    # a family whose quantile is found by a numerical root search (von Mises, generic scipy ppf) returns
+                    # it to the solver's tolerance only: two answers are the same quantile if their probabilities agree
+                    with np.errstate(all="ignore"):
+                        pa, pb = float(R.cdf(fam, one, **pj)), float(R.cdf(fam, v, **pj))
+                    if np.isfinite(pa) and np.isfinite(pb) and abs(pa - pb) <= 1e-12:
+                        e = 0.0
                 if e > worst:
                     worst, bad = e, (float(xa[j]), float(gs[j]), v, one, sens)
             c.check("cond.vector-eq-scalar", worst <= 1e-12, f"conditional {fam}.{kind}: vectorised call differs from one pair at a time", family=fam, witness=bad, rel=worst)
